@@ -76,9 +76,17 @@ class SigSpec:
 class Call:
   """What a recording callable returns: its name and the values bound to each parameter."""
   log = []
+  attempts = []      # every invocation, including the ones that raise
+  fail = {}          # fname -> zero-argument factory of the exception to raise
+  hook = {}          # fname -> callable run inside the invocation (e.g. a nested fdl.build)
 
   def __init__(self, fname, bound):
     self.fname, self.bound = fname, tuple(bound)
+    Call.attempts.append(fname)
+    if fname in Call.hook:
+      Call.hook[fname]()
+    if fname in Call.fail:
+      raise Call.fail[fname]()
     Call.log.append(self)
 
   def __eq__(self, other):
